@@ -123,7 +123,7 @@ Definition ex_trace : list (event cop) :=
 Example ex_trace_runs :
   match crun ex_trace with
   | Some c => map (fun e => le_res e) (lin c)
-              = [RUnit; RUnit; RLen 1; RUnit; RErr (Stk 9 [Const 3; Const 2; Ptr 100])]
+              = [RUnit; RUnit; RLen 1; RUnit; RErr (Stk 9 3 [Const 3; Const 2; Ptr 100])]
               /\ coll_len (st c) = 3
   | None => False
   end.
